@@ -19,8 +19,17 @@ import itertools
 from .cond import OPS
 from .checks.c16 import E, Par, f_le
 
-SIMPLE = ("pk", "en", "dn", "e_in_tuple", "pred_le", "d_in_conc_p", "d_in_conc_esubs")
-WITH_D = {"dn", "pred_le", "d_is_the_e", "d_in_conc_p", "d_in_conc_esubs", "d_in_conc_psubs", "forall_subs_vs_d"}
+from entity_query_language import predicate as _predicate
+
+
+@_predicate
+def f_nd(x, k=2):
+    """a predicate with a defaulted parameter, used with and without it in the same query / process"""
+    return x.n > k
+
+SIMPLE = ("pk", "en", "dn", "e_in_tuple", "pred_le", "d_in_conc_p", "d_in_conc_esubs", "e_obj_in", "e_eq_d", "pred_default")
+WITH_D = {"dn", "pred_le", "d_is_the_e", "d_in_conc_p", "d_in_conc_esubs", "d_in_conc_psubs", "forall_subs_vs_d", "e_eq_d",
+          "dn_le_an_flat"}
 
 
 def uses_d(a):
@@ -42,7 +51,8 @@ def gen_atom(rng, simple_only=False):
     op = lambda: rng.choice(["<", "<=", ">", ">=", "!=", "=="])
     t = lambda: rng.randint(1, 6)
     kinds = list(SIMPLE) if simple_only else list(SIMPLE) + ["d_is_the_e", "e_le_sub_an", "exists_an", "d_in_conc_psubs", "forall_subs",
-                                                             "forall_items_an", "forall_subs_vs_d", "or", "not"]
+                                                             "forall_items_an", "forall_subs_vs_d", "or", "not", "dn_le_an_flat",
+                                                             "p_has_elem", "pred_default"]
     k = rng.choice(kinds)
     if k == "pk":
         return ["pk", op(), rng.randint(0, 4)]
@@ -52,6 +62,12 @@ def gen_atom(rng, simple_only=False):
         return ["dn", op(), t()]
     if k == "e_in_tuple":
         return ["e_in_tuple", sorted(rng.sample(range(1, 7), rng.randint(1, 4)))]
+    if k == "e_obj_in":
+        return ["e_obj_in", sorted(rng.sample(range(6), rng.randint(1, 4)))]
+    if k == "pred_default":
+        return ["pred_default", rng.choice([None, None, 1, 3, 5])]
+    if k == "p_has_elem":
+        return ["p_has_elem", t()]
     if k in ("e_le_sub_an", "exists_an"):
         return [k, t()]
     if k in ("forall_subs", "forall_items_an"):
@@ -71,7 +87,9 @@ def gen_case(rng):
     sel = rng.choice([["p", "e", "d"], ["e", "d"], ["d"], ["p", "d"], ["d", "e"]] if with_d else [["p", "e"], ["e"], ["p"], ["e", "p"]])
     return {"world": gen_world(rng), "c0": ["pk", rng.choice([">=", ">", "!="]), rng.randint(0, 2)],
             "c1": rng.choice([["en", ">=", 1], ["en", rng.choice([">", "<=", "!="]), rng.randint(1, 5)],
-                              ["e_in_tuple", sorted(rng.sample(range(1, 7), rng.randint(2, 5)))]]),
+                              ["e_in_tuple", sorted(rng.sample(range(1, 7), rng.randint(2, 5)))],
+                              # the element's condition written inside a sub-query over the already bound parent
+                              ["en_in_subquery", rng.choice([">", "<=", "!=", ">="]), rng.randint(1, 5)]]),
             "atoms": atoms, "sel": sel, "caching": rng.random() < 0.7}
 
 
@@ -89,7 +107,7 @@ def holds(a, p, x, d, es):
     k = a[0]
     if k == "pk":
         return OPS[a[1]](p.k, a[2])
-    if k == "en":
+    if k in ("en", "en_in_subquery"):
         return OPS[a[1]](x.n, a[2])
     if k == "dn":
         return OPS[a[1]](d.n, a[2])
@@ -97,6 +115,16 @@ def holds(a, p, x, d, es):
         return x.n in tuple(a[1])
     if k == "pred_le":
         return x.n <= d.n
+    if k == "e_obj_in":
+        return any(x is es[j] for j in a[1])            # in_(e, (objects...)): the flattened element itself is the operand
+    if k == "e_eq_d":
+        return x is d                                   # e == d
+    if k == "pred_default":
+        return x.n > (2 if a[1] is None else a[1])      # f_nd(e) uses the default k=2, f_nd(e, k) the given one
+    if k == "dn_le_an_flat":
+        return any(d.n <= x2.n for x2 in p.items)       # d.n <= an(entity(flatten(p.items))).n : some element of the bound parent
+    if k == "p_has_elem":
+        return any(x2.n > a[1] for x2 in p.items)       # an(entity(p, flatten(p.items).n > t)) as a condition
     if k == "d_is_the_e":
         return d is x                               # d == the(entity(y, y.n == e.n)): element numbers are unique
     if k == "e_le_sub_an":
@@ -137,7 +165,7 @@ def expected(case, es, ps):
 def all_selected(case):
     """every variable of the query is selected (then the row COUNT is specified too); a nested an() with several solutions
     brings a variable of its own that nobody selects"""
-    if tags(case) & {"e_le_sub_an", "exists_an"}:
+    if tags(case) & {"e_le_sub_an", "exists_an", "dn_le_an_flat", "p_has_elem"}:
         return False
     with_d = any(uses_d(a) for a in case["atoms"])
     return set(case["sel"]) == ({"p", "e", "d"} if with_d else {"p", "e"})
@@ -158,12 +186,24 @@ def build(case, es, ps):
                 return OPS[a[1]](p.k, a[2])
             if k == "en":
                 return OPS[a[1]](e.n, a[2])
+            if k == "en_in_subquery":
+                return an(entity(p, OPS[a[1]](e.n, a[2])))
             if k == "dn":
                 return OPS[a[1]](d.n, a[2])
             if k == "e_in_tuple":
                 return in_(e.n, tuple(a[1]))
             if k == "pred_le":
                 return f_le(e, d.n)
+            if k == "e_obj_in":
+                return in_(e, tuple(es[j] for j in a[1]))
+            if k == "e_eq_d":
+                return e == d
+            if k == "pred_default":
+                return f_nd(e) if a[1] is None else f_nd(e, a[1])
+            if k == "dn_le_an_flat":
+                return d.n <= an(entity(flatten(p.items))).n
+            if k == "p_has_elem":
+                return an(entity(p, flatten(p.items).n > a[1]))
             if k == "d_is_the_e":
                 y = let(E, es)
                 return d == the(entity(y, y.n == e.n))
